@@ -27,7 +27,7 @@ type Flat struct {
 }
 
 var flatKeys = []string{
-	"name", "num", "req", "opt", "desc",
+	"name", "pname", "num", "req", "opt", "desc",
 	"arr", "amin", "amax", "auniq", "single",
 	"kind", "fmt",
 	"min", "max", "emin", "emax", "minl", "maxl", "pat", "const", "in", "nin",
@@ -50,6 +50,15 @@ func (f *Flat) set(k, v string) {
 		}
 	}
 	panic("flat: unknown key " + k)
+}
+
+func (f *Flat) get(k string) string {
+	for i := range f.kv {
+		if f.kv[i][0] == k {
+			return f.kv[i][1]
+		}
+	}
+	return "~"
 }
 
 func (f *Flat) String() string {
